@@ -55,6 +55,16 @@ CLAIMED = {
         technique='deterministic simulation (history engine): seeded single and batched mutations on trees of recording objects and containers with callbacks, with raising-handler faults and notification scopes; the event log of every call is checked against the written locations and the pre/post snapshots, derived getters against a freshly built copy',
         text='Seeded exploration of mutation histories (accessor writes, list/dict mutators, update/setdefault/pop, rebind with many paths, notify_parents / skip_notification, notify_on_change scopes) on trees whose objects override _on_change and whose containers carry callbacks. For every call that returns normally with notifications on: every subscribing ancestor of a changed location gets exactly one event, nobody else gets one, descendants before ancestors, keys are the written locations relative to the receiver, old/new values match the snapshots; with notifications off or skipped nothing is delivered. After ordinary mutations is_partial / sym_missing / sym_nondefault / sym_puresymbolic / is_deterministic of every node equal those of a deep clone built through the constructors.',
         note='Trusted: written locations derived from the call\'s arguments; snapshots through the symbolic read API. A write of an equal value may or may not be listed. Batches whose elements shift positions (Insertion / deletion markers / overlapping paths) are judged only for exactly-once and order. A tree that saw a silent or rejected mutation is no longer judged for freshness in that run.'),
+    'C14': dict(
+        engine='search', design='§3.3',
+        technique='deterministic simulation: seeded search trajectories (twin instances under different process-global random streams) with every shipped operator and random expressions of the composition algebra applied to the live population at every generation',
+        text='Seeded exploration: a search algorithm (hand-composed Evolution with a generated reproduction expression, regularized evolution, hill climb, sweeping, random) is stepped as twin instances whose only difference is the process-global random stream; at every generation 3-7 operators / composed expressions are applied to the live population. Children must be valid for the space and node-aligned with it, selectors return members in the documented number, inputs and populations are unchanged (also when the operator raises), seeded operators and the seeded algorithm are independent of the global RNG.',
+        note='Trusted: DNASpec.validate and a DNA rebuilt from raw numbers as references. Operators that raise on a population (unsupported shape, too few parents) count as inapplicable. Injected nondeterminism is the global random stream; evaluation is a stub.'),
+    'C12': dict(
+        engine='search', design='§3.3',
+        technique='deterministic simulation: every DNA handed out along seeded search trajectories (proposals, operator outputs, clones) is compared node by node with a DNA rebuilt from its raw numbers; sampled views must agree and reconstruct it',
+        text='Seeded exploration of chains of library operations that produce DNAs from DNAs (random generation, sweeping, mutators, recombinators, selectors, clone) on generated spaces: each node must be bound to the decision point of its own position, sampled to_dict views (3 per run from the 3x5x3 grid), JSON forms and lookups by decision point / name must equal those of the rebuilt DNA, and a view that reconstructs the rebuilt DNA must reconstruct the handed-out one. The losslessness of views as a pure function of (spec, DNA, options) is decided only on the DNAs these searches reach.',
+        note='Trusted: DNA.from_numbers(to_numbers(), spec) as the aligned reference. Pure-input half of C12 (all view options on all specs) is outside this technique and only sampled.'),
 }
 
 NOT_APPLICABLE = {}
